@@ -160,7 +160,7 @@ fn c14_ratio_i64_cmp_integers_full_width() {
 }
 
 /// general canonical operands with |n|, d < 2^31 (so exact cross multiplication fits in i128 easily)
-//@ timeout=900
+//@ tier=thorough timeout=1800
 #[kani::proof]
 #[kani::unwind(70)]
 fn c14_ratio_i64_cmp_general() {
